@@ -136,6 +136,15 @@ CHECKS = {
             'fresh Executor reports for that coordinate, grids must have the shape (used range U overrides) in row-major order, '
             'and icontract snapshots around every query must find the override set and sizes unchanged. Held on the schedules observed.',
             'Trusted: a fresh Executor asked once as reference. Values compared by type and repr. TODAY excluded.'),
+    'C11': ('runtime monitoring: boundary oracle = independent folds over the planted contents (vf/xlref, outcome sets) + '
+            'split laws checked on the recorded results',
+            'Two 8x5 content tables over every cell kind are folded by SUM/AVERAGE/MIN/MAX/COUNT with 1-4 arguments mixing areas '
+            '(row, column, rectangle, whole column, other sheet, overlapping), single cells and numeric literals, by COUNTBLANK and '
+            'by AND/OR over comparisons, cells and literals; values are compared with an independent fold, contents are re-drawn '
+            'three times through overrides; every split of an area into two must satisfy SUM/COUNT/COUNTBLANK(X)=f(X1)+f(X2), '
+            'f(X)=f(X1,X2), MIN/MAX(X)=MIN/MAX of the parts. Held on the executions observed.',
+            'Trusted: vf/xlref folds. Dates inside areas and aggregates of no numbers accept either reading; text/blank '
+            'arguments of AND/OR and non-numeric scalar arguments are not generated.'),
     'C18': ('runtime monitoring: hooked state assertion on Excel.parse (grid, titles, sizes) + boundary observation of every '
             'planted constant vs the generator\'s cell map cross-read by openpyxl\'s regular loader',
             'Generated sparse workbooks (1-12 worksheets in random order, chart sheets between them, empty sheets, blocks away '
